@@ -17,6 +17,7 @@ type bsGenState struct {
 	legacy    []common.Address
 	uniq      uint64
 	bounds    []int // statement index of each generated event's own row insert
+	staleIdx  bool  // a reorg removed deposits and no deposit has been stored since: the tree's in-memory index may be ahead
 }
 
 func bsAmount(rng *Rng) string {
@@ -272,6 +273,9 @@ func bsWorldGen(r *Run, rng *Rng, w *bsWorld, steps int, allowRm bool) {
 					g.tip = g.first - 1
 				}
 			}
+			if g.nextDC < dcBefore {
+				g.staleIdx = true
+			}
 			halted = w.exec(r, "q halted") == "1"
 			if halted && rng.Chance(40) {
 				w.exec(r, "restart") // nothing left to reorg away (e.g. the very first block had the gap): only a restart clears the flag
@@ -360,6 +364,7 @@ func bsWorldGen(r *Run, rng *Rng, w *bsWorld, steps int, allowRm bool) {
 			if rng.Chance(35) {
 				// a storage fault at one write statement of this block's transaction (sometimes two in a row), then a clean retry
 				nf := 1 + rng.Intn(2)
+				sawCommitFault := false
 				for i := 0; i < nf; i++ {
 					k := rng.Intn(stmts + 1)
 					if len(g.bounds) > 0 && rng.Chance(35) {
@@ -367,13 +372,18 @@ func bsWorldGen(r *Run, rng *Rng, w *bsWorld, steps int, allowRm bool) {
 					}
 					if rng.Chance(15) {
 						k = 9000 // the COMMIT itself fails
+						sawCommitFault = true
 					}
 					obs := w.exec(r, fmt.Sprintf("blk %d %d %s", bn, k, evs))
 					r.Count("branch:fault")
 					if obs == "ok" {
 						break
 					}
-					if obs == "err fault" && rng.Chance(12) && strings.HasPrefix(evs, "b;") {
+					if obs == "err fault" && !sawCommitFault && !g.staleIdx && rng.Chance(12) && strings.HasPrefix(evs, "b;") {
+						// (not after a failed COMMIT: database/sql marks the transaction done, so the wrapper's Rollback — and with it
+						// the tree's rollback callbacks — does not run; the in-memory index stays ahead until the retry of the SAME
+						// block, which is what a driver does, finds the mismatch and rebuilds. A different block in between is the
+						// stale-index observation of C01_gap_rejected_partial, not a listed property.)
 						// instead of the retry another block arrives whose first deposit count is one PAST the deposit that just
 						// failed to be stored (a gap): the syncer has to halt, whatever its in-memory frontier went through
 						first := bigOf(strings.Split(strings.Fields(evs)[0], ";")[2]).Uint64()
@@ -398,6 +408,9 @@ func bsWorldGen(r *Run, rng *Rng, w *bsWorld, steps int, allowRm bool) {
 				w.compareWithTwin(r, "after fault and retry")
 			} else if obs := w.exec(r, fmt.Sprintf("blk %d - %s", bn, evs)); obs != "ok" {
 				r.Fail("[C01,C04,C07,C14] a well-formed block was refused: "+obs, append([]string{"new"}, w.lines...))
+			}
+			if strings.Contains(" "+evs, " b;") && w.lastBlockStored(bn) {
+				g.staleIdx = false // a deposit went through AddLeaf: the frontier was rebuilt if it had to be
 			}
 			g.tip = bn
 			bn += 1 + uint64(rng.Intn(2))
